@@ -68,6 +68,7 @@ package ro
 //@   props C03 C10 C09 C06
 //@   binds index
 //@   calls Delete
+//@   params -
 //@   track observers.*
 //@   ensures [teardown-unregisters-own-entry|C03,C10,C06] trace(observers.Delete(index))
 
@@ -142,6 +143,7 @@ package ro
 //@   props C03 C10 C09 C06
 //@   binds index
 //@   calls Delete
+//@   params -
 //@   track observers.*
 //@   ensures [teardown-unregisters-own-entry|C03,C10,C06] trace(observers.Delete(index))
 
@@ -216,6 +218,7 @@ package ro
 //@   props C03 C10 C09 C06
 //@   binds index
 //@   calls Delete
+//@   params -
 //@   track observers.*
 //@   ensures [teardown-unregisters-own-entry|C03,C10,C06] trace(observers.Delete(index))
 
@@ -295,6 +298,7 @@ package ro
 //@   props C03 C10 C09 C06
 //@   binds index
 //@   calls Delete
+//@   params -
 //@   track observers.*
 //@   ensures [teardown-unregisters-own-entry|C03,C10,C06] trace(observers.Delete(index))
 
